@@ -576,6 +576,30 @@ def muxEffective (reg : Bool) (cfg : Cfg) (n : Name) (as : List Attr) (body : Li
        | .elem _ => run)
     | _, _ => { ops := [], ret := .addrErr }
 
+/-- which IQ handlers a `mux.ServeMux` has: one handler registered (`mux.IQ(typ, payload, h)`) for
+each of the listed types, for one payload name or (`none`) for the wildcard payload -/
+structure MuxReg where
+  types : List String
+  payload : Option Name
+  deriving Repr
+
+/-- `ServeMux.IQHandler(typ, payloadName)` finds a registered handler (the lookup cascade exact
+name → local name → namespace → wildcard finds, for a registration with a full name, exactly
+that name; for the wildcard registration, everything) -/
+def MuxReg.has (r : MuxReg) (typ : String) (pl : Payload) : Bool :=
+  r.types.contains typ &&
+    (match r.payload with
+     | none => true
+     | some n => pl == .elem n)
+
+/-- `muxEffective` for a multiplexer with the registrations `r`: whether the recording handler or
+the fallback runs is decided per request, by its type and the name of its payload -/
+def muxEffectiveG (r : MuxReg) (cfg : Cfg) (n : Name) (as : List Attr) (body : List Tok) (p : Prog) : Prog :=
+  muxEffective (r.has (getTyp as) (firstPayload body)) cfg n as body p
+
+/-- `Serve(nil)`: the session's `nopHandler` reads nothing, writes nothing and returns nil -/
+def nilHandlerProg : Prog := Prog.nop
+
 /-- `iq.Result(nil)`: the reply a handler builds from the IQ `stanza.NewIQ` parsed — the request
 with to/from swapped, type result and **the id exactly as it was read** -/
 def resultReply (n : Name) (id : String) (to frm : Option String) : List Tok :=
@@ -718,9 +742,12 @@ def serveP (cfg : Cfg) (pend : List Pend) (inp : List Tok) (progs : List Prog) :
 /-! ### the state of the output: open, left inside an element, closed
 
 After `Session.Close` every write fails (`ErrOutputStreamClosed`), including the flush after
-the handler.  After a write that left an element open, or that the encoder refused (an end tag
-without a start tag), every *later* writer fails with `errOutputBroken` (its flush does not).
-In both states the reply detector still sees the tokens the handler tries to write, and
+the handler.  A handler that returns nil after a write that left an element open, or that the
+encoder refused (an end tag without a start tag), ends the session with `errOutputBroken`; after
+a `Send` call of the application that was abandoned inside an element every *later* writer fails
+with `errOutputBroken`, and a handler that tried to write ends the session with it.
+In both states a reply the handler tries to write is refused and therefore does not count as
+the reply (the automatic reply is due, and ends the session), and
 `sendError` / `Close` return what they always return: the state of the output never changes
 the value `Serve` returns for the way the *input* ended. -/
 
@@ -755,17 +782,28 @@ def leavesBroken (ts : List Tok) : Bool := (encWire 0 ts).1 != 0 || (encWire 0 t
 /-- `handleElem` for any state of the output at entry; the handler may close the output first -/
 def handleElemC (cfg : Cfg) (st : OutSt) (n : Name) (as : List Attr) (rs1 : RS) (prog : Prog) : Step :=
   let st1 : OutSt := if prog.close then .closed else st
-  if st1 == .opn then (handleElem cfg n as rs1 prog).mapWritten fun w => (encWire 0 w).2.2 else
+  if st1 == .opn then
+    -- a handler that returns nil with an element of its own still open (or one of whose tokens
+    -- the encoder refused) has left the stream inside an element: the session ends at once
+    (if prog.ret == .ok && leavesBroken (writesOf prog.ops) then
+      .stop (some { start := .start n (blankFrom cfg n as),
+                    view := (runOps (getId (blankFrom cfg n as)) prog.ops { rs := rs1, cnt := 0, fin := false } WS.init []).1 })
+        (encWire 0 (writesOf prog.ops)).2.2 (.error .outputBroken)
+     else (handleElem cfg n as rs1 prog).mapWritten fun w => (encWire 0 w).2.2) else
   match prog.ret with
   | .ok =>
     let as' := blankFrom cfg n as
     let id := getId as'
     let (view, es1, ws1) := runOps id prog.ops { rs := rs1, cnt := 0, fin := false } WS.init []
     let inv : Inv := { start := .start n as', view := view }
-    let needs := isIq n && isRequestTyp (getTyp as') && !ws1.wrote
+    -- every token a handler tries to write in this state is refused, and a reply that was
+    -- refused is not a reply: a get/set IQ is still unanswered whatever the handler attempted
+    let needs := isIq n && isRequestTyp (getTyp as')
     if needs && (replyTo cfg as').isNone then .stop (some inv) [] (.error .badJid)
     else if needs then .stop (some inv) [] (.error (if st1 == .closed then .outputClosed else .outputBroken))
     else if st1 == .closed && !(writesOf prog.ops).isEmpty then .stop (some inv) [] (.error .outputClosed)
+    -- (every token was refused: the handler leaves a writer that failed)
+    else if !(writesOf prog.ops).isEmpty then .stop (some inv) [] (.error .outputBroken)
     else
       match discard es1 with
       | (none, es2) => .next (some inv) [] es2.rs
